@@ -38,6 +38,7 @@ theorem body_nohang (F : UnwindFacts) (cf : CallFn) (h : NoHang cf) :
   | deferVar f x k _ ih => intro a anc self w hw; simp only [execBodyY]; exact ih _ _ _ _ hw
   | deferBin s x k ih => intro a anc self w hw; simp only [execBodyY]; exact ih _ _ _ _ hw
   | deferDel t k ih => intro a anc self w hw; simp only [execBodyY]; exact ih _ _ _ _ hw
+  | deferBinSpread s ns k ih => intro a anc self w hw; simp only [execBodyY]; exact ih _ _ _ _ hw
   | deferPanic v k ih =>
     intro a anc self w hw
     simp only [execBodyY]
@@ -70,6 +71,7 @@ theorem entries_nohang (cf : CallFn) (h : NoHang cf) (hk : KeepsLock cf) :
     cases callee with
     | bin s => simp only [runEntriesY]; exact ih self _ hl hw
     | del t => simp only [runEntriesY]; exact ih self _ hl hw
+    | bins s ns sp => simp only [runEntriesY]; exact ih self _ hl hw
     | pan v => simp only [runEntriesY, facts_deferredProtected, if_true]; exact ih _ _ hl hw
     | src c =>
       simp only [runEntriesY, facts_deferredProtected, if_true]
